@@ -151,6 +151,12 @@ TResolveWait ==
      ELSE PostMatches /\ UNCHANGED graphVars /\ KeepMon
   /\ Oracles /\ NoStartOracles
 
+TForce ==
+  /\ IsEv("Force")
+  /\ IF Precise THEN ManagerSetStatus(E.t, E.res) /\ PostMatches
+     ELSE PostMatches /\ UNCHANGED graphVars /\ KeepMon
+  /\ Oracles /\ NoStartOracles
+
 TTick ==
   /\ IsEv("Tick")
   /\ PostMatches /\ UNCHANGED graphVars /\ KeepMon
@@ -182,7 +188,7 @@ TStuck ==
   /\ a_stuck' = TRUE
   /\ UNCHANGED <<vars, a_c02bad, a_revbad, a_aggbad, a_rdybad, a_redobad, a_rerunbad, a_lostbad, needRerun, a_stopbad>>
 
-TNext == TInitEv \/ TEnsure \/ TFinish \/ TAbort \/ TResolveWait \/ TTick \/ TStop \/ TRestart \/ TStuck
+TNext == TInitEv \/ TForce \/ TEnsure \/ TFinish \/ TAbort \/ TResolveWait \/ TTick \/ TStop \/ TRestart \/ TStuck
 
 TInit ==
   /\ l = 1
